@@ -25,20 +25,41 @@ def sh(cmd, cwd=None, timeout=3600):
 
 
 def ensure_makefile():
-    if not os.path.exists(os.path.join(COQ, "Makefile")):
-        vs = sorted(
-            os.path.relpath(os.path.join(d, f), COQ)
-            for d, _, fs in os.walk(COQ) for f in fs if f.endswith(".v"))
-        base = open(os.path.join(COQ, "_CoqProject")).read().split("\n")
-        base = [l for l in base if l.startswith("-")]
-        with open(os.path.join(COQ, "_CoqProject.gen"), "w") as f:
-            f.write("\n".join(base + vs) + "\n")
-        r = sh("coq_makefile -f _CoqProject.gen -o Makefile", cwd=COQ)
-        if r.returncode != 0:
-            raise RuntimeError("coq_makefile failed: " + r.stderr)
+    """(re)generate the Makefile whenever the set of .v files changed"""
+    vs = sorted(
+        os.path.relpath(os.path.join(d, f), COQ)
+        for d, _, fs in os.walk(COQ) for f in fs if f.endswith(".v"))
+    base = open(os.path.join(COQ, "_CoqProject")).read().split("\n")
+    base = [l for l in base if l.startswith("-")]
+    want = "\n".join(base + vs) + "\n"
+    gen = os.path.join(COQ, "_CoqProject.gen")
+    if os.path.exists(os.path.join(COQ, "Makefile")) and os.path.exists(gen) and open(gen).read() == want:
+        return
+    for f in ("Makefile", "Makefile.conf", ".Makefile.d"):
+        try:
+            os.remove(os.path.join(COQ, f))
+        except FileNotFoundError:
+            pass
+    with open(gen, "w") as f:
+        f.write(want)
+    r = sh("coq_makefile -f _CoqProject.gen -o Makefile", cwd=COQ)
+    if r.returncode != 0:
+        raise RuntimeError("coq_makefile failed: " + r.stderr)
+
+
+def regen_facts():
+    """Generated/Facts.v from the source text of the tree under check (fail-soft)"""
+    import facts_extract
+    repo = os.environ.get("HERMES_REPO", "/repo")
+    try:
+        changed, stale, _ = facts_extract.regenerate(repo, COQ)
+    except Exception as e:      # never an alarm by itself
+        return {"facts_changed": False, "facts_stale": ["*"], "facts_error": repr(e)}
+    return {"facts_changed": changed, "facts_stale": stale}
 
 
 def build_all(jobs=16):
+    regen_facts()
     # always regenerate: the file list may have changed
     for f in ("Makefile", "Makefile.conf", ".Makefile.d"):
         try:
@@ -122,6 +143,8 @@ def build_property(pid):
         info["failing_file"] = m.group(1) if m else None
         done = 0
         for f in cone:
+            if info["failing_file"] and info["failing_file"] in cone_of(f):
+                continue        # the failing file and everything resting on it
             if os.path.exists(os.path.join(COQ, f + "o")) and \
                     os.path.getmtime(os.path.join(COQ, f + "o")) >= os.path.getmtime(os.path.join(COQ, f)):
                 done += count_obligations([f])
@@ -206,6 +229,7 @@ def run_check(pid, tier):
     lines = []
     known = [k for k in load_known() if k["property"] == pid and k["status"] == "known"]
     gate = gate_no_axioms()
+    facts = regen_facts()
     proof = build_property(pid)
     # the correspondence/oracle modules the harness evaluates must be current too
     corr_vo = " ".join("Corr/" + f + "o" for f in sorted(os.listdir(os.path.join(COQ, "Corr"))) if f.endswith(".v"))
@@ -266,6 +290,7 @@ def run_check(pid, tier):
             "Coq 8.16.1 kernel + vm_compute (no native_compute)",
             "axioms reported by Print Assumptions: " + (", ".join(proof.get("assumptions") or []) or "none (Closed under the global context)"),
             "hand-written Gallina model tied to /repo by the Python correspondence harness (harness/*.py)",
+            "harness/facts_extract.py (Python ast): tables and call orders regenerated into coq/Generated/Facts.v, tied to the models by Proofs/FactsTie.v",
         ],
         "theorems": proof.get("theorems", []),
         "proof_cone": proof.get("cone", []),
@@ -277,6 +302,7 @@ def run_check(pid, tier):
         "disagreements_checked": len(corr),
         "exhaustive": bool(res.get("exhaustive", False)),
         "known_findings_seen": sorted(reported_known),
+        "facts_regenerated_from_source": facts,
     }
     sigs = {}
     for v in violations:
